@@ -3,7 +3,9 @@ pub mod c02;
 pub mod c03;
 pub mod c04;
 pub mod c05;
+pub mod c06;
 pub mod c14;
+pub mod c19;
 
 use crate::fw::Outcome;
 use crate::gens::WCase;
